@@ -82,7 +82,7 @@ InitHist ==
    leaders |-> <<>>, grants |-> <<>>, votesRecv |-> <<>>, preRecv |-> <<>>,
    hsExp |-> [i \in Node |-> NoHS], hsStart |-> [i \in Node |-> NoHS],
    props |-> <<>>, propDeliv |-> <<>>, reads |-> <<>>, maxExposed |-> 0,
-   leadAge |-> [i \in Node |-> 0], heard |-> [i \in Node |-> [j \in Node |-> 0]],
+   leadAge |-> [i \in Node |-> 0], heard |-> [i \in Node |-> [j \in Node |-> 0]], sinceLead |-> [i \in Node |-> 1000],
    maxLeaderCommit |-> 0, hsExpPrev |-> [i \in Node |-> NoHS], dlPrev |-> [i \in Node |-> [next |-> 1, inc |-> 0]],
    cfgIdx |-> [i \in Node |-> 0], cfold |-> [upto |-> 0, st |-> EmptyCfg, points |-> <<>>, init |-> FALSE, twoVoterShrink |-> FALSE],
    outst |-> <<>>, uncAcc |-> [i \in Node |-> [valid |-> FALSE]],
@@ -212,6 +212,13 @@ HistNext(h, a, i, pre, post, preD, postD) ==
                 ELSE IF a.name \in {"Apply", "ApplyThread"}
                      THEN [h.heard EXCEPT ![i] = [j \in Node |-> IF post.cfg # pre.cfg \/ (HasPr(post, j) /\ ~HasPr(pre, j)) THEN 0 ELSE h.heard[i][j]]]
                 ELSE h.heard
+      \* ticks since node i last heard from the leader it follows (append, heartbeat or snapshot of its term)
+      sinceLead1 == IF ~up \/ a.name \in {"Restart", "Boot"} THEN [h.sinceLead EXCEPT ![i] = 1000]
+                    ELSE IF a.name = "Deliver" /\ a.msg.type \in {"App", "Heartbeat", "Snap"} /\ a.msg.term = post.term
+                            /\ post.role = "F" /\ post.lead = a.msg.from
+                         THEN [h.sinceLead EXCEPT ![i] = 0]
+                    ELSE IF a.name = "Tick" THEN [h.sinceLead EXCEPT ![i] = IF @ >= 1000 THEN 1000 ELSE @ + 1]
+                    ELSE h.sinceLead
       outst1 == OutstNext(h.outst, a, i, pre, post)
       \* uncommitted-size accounting (C16).  The library's estimate is exact for the payload bytes of
       \* the leader's own-term entries that are not yet applied, as long as everything applied since
@@ -249,5 +256,5 @@ HistNext(h, a, i, pre, post, preD, postD) ==
                 !.gc = gc1, !.gcBase = gcBase1, !.dl = dl1, !.leaders = leaders1, !.grants = grants1,
                 !.votesRecv = votesRecv1, !.preRecv = preRecv1, !.hsExp = hsExp1, !.hsStart = hsStart1,
                 !.props = props1, !.propDeliv = propDeliv1, !.reads = reads1, !.maxExposed = maxExp1,
-                !.leadAge = leadAge1, !.heard = heard1, !.outst = outst1, !.uncAcc = uncAcc1]
+                !.leadAge = leadAge1, !.heard = heard1, !.sinceLead = sinceLead1, !.outst = outst1, !.uncAcc = uncAcc1]
 =============================================================================
